@@ -16,14 +16,14 @@ Params0  == [admin |-> "adm", execs |-> <<"e1">>, maxVals |-> 3, histEntries |->
 Cap == 3
 
 S0 == [ l1 |-> L1!InitState({"1", "2"}, L1Accts, L1Denoms, {"u1", "u2"}, 4, "d1", {"ch1"}, Cap, 1, Devs),
-        l2 |-> L2!InitState(L2Accts, L2Denoms, [x \in {} |-> 0], Params0, Cap, Devs),
+        l2 |-> L2!InitState(L2Accts, L2Denoms, {}, [x \in {} |-> 0], Params0, Cap, Devs),
         deps |-> << >>, wds |-> << >>, trees |-> [x \in {} |-> 0] ]
 
 Create == [chain |-> "L1", e |-> [type |-> "CreateBridge", signer |-> "x", cfg |->
              [proposer |-> "p1", challenger |-> "c1", period |-> 2, interval |-> 2, startH |-> 1, oracle |-> FALSE,
               meta |-> [cls |-> "none", chs |-> << >>], bsub |-> "s1", bchain |-> "INITIA"]]]
 
-Dens == IF Thorough \/ Fam = "twodenoms" THEN {"d1", "d2"} ELSE {"d1"}
+Dens == {"d1", "d2"}
 Events(s) ==
   IF ~Has(s.l1.cfg, "1") THEN {Create}
   ELSE
